@@ -191,15 +191,25 @@ pub fn mesh_case(ctx: &Ctx, c: &MeshCase) -> Vec<Viol> {
 // ---------------- (c) silence ----------------
 
 pub fn silence_case(ctx: &Ctx, own_timeout: u32, silent_from: u32) -> Vec<Viol> {
+    silence_case_mode(ctx, own_timeout, silent_from, false)
+}
+
+/// `learning`: switch mode without claims - the routes of the silent node are addresses learned from its traffic
+pub fn silence_case_mode(ctx: &Ctx, own_timeout: u32, silent_from: u32, learning: bool) -> Vec<Viol> {
     ctx.eval();
-    let case = json!({"kind": "silence", "own_timeout": own_timeout, "silent_from": silent_from});
+    let case = json!({"kind": "silence", "own_timeout": own_timeout, "silent_from": silent_from, "learning": learning});
     let mut out = vec![];
     let mut sim: NetSim<Frame> = NetSim::new();
     for i in 0..3 {
         let mut cfg = base_config();
         cfg.auto_claim = false;
-        cfg.mode = Mode::Router;
-        cfg.claims = vec![format!("10.{}.0.0/16", i + 1)];
+        if learning {
+            cfg.mode = Mode::Switch;
+            cfg.switch_timeout = 10_000;
+        } else {
+            cfg.mode = Mode::Router;
+            cfg.claims = vec![format!("10.{}.0.0/16", i + 1)];
+        }
         cfg.peer_timeout = own_timeout;
         sim.add_node(&cfg, false);
     }
@@ -212,6 +222,14 @@ pub fn silence_case(ctx: &Ctx, own_timeout: u32, silent_from: u32) -> Vec<Viol> 
     if !sim.all_connected() {
         out.push(Viol::new("silence-setup", "mesh not connected before the silence".to_string(), case));
         return out;
+    }
+    if learning {
+        // a host behind node 2 talks: the others learn its address from node 2
+        sim.put_payload(2, crate::sim::eth_frame([0xff; 6], [2, 0, 0, 0, 9, 9], None, b"hello"));
+        sim.settle();
+        for n in 0..3 {
+            sim.take_iface(n);
+        }
     }
     // node 2 goes silent: everything it sends is lost from now on
     let x = sim.addr(2);
@@ -411,6 +429,12 @@ pub fn run(ctx: &Ctx) {
         ctx.report(v);
     });
     ctx.subspace("silence injection: peer timeouts {120, 300} x silence starting at every second of a window", sc.len() as u64, true);
+    let sl: Vec<(u32, u32)> = vec![(120, 0), (120, 7), (300, 3), (300, 50)];
+    ctx.par_items(&sl, |_, (own, t)| {
+        let v = silence_case_mode(ctx, *own, *t, true);
+        ctx.report(v);
+    });
+    ctx.subspace("silence injection in switch mode: the silent node's routes are learned addresses (no claims)", sl.len() as u64, true);
 
     // (d) back-off
     let v = backoff_case(ctx, 48);
@@ -422,7 +446,7 @@ pub fn replay(ctx: &Ctx, case: &Value) {
     let v = match case["kind"].as_str() {
         Some("interval") => serde_json::from_value::<IntervalCase>(case["case"].clone()).map(|c| interval_case(ctx, &c)).unwrap_or_default(),
         Some("mesh") => serde_json::from_value::<MeshCase>(case["case"].clone()).map(|c| mesh_case(ctx, &c)).unwrap_or_default(),
-        Some("silence") => silence_case(ctx, case["own_timeout"].as_u64().unwrap_or(300) as u32, case["silent_from"].as_u64().unwrap_or(0) as u32),
+        Some("silence") => silence_case_mode(ctx, case["own_timeout"].as_u64().unwrap_or(300) as u32, case["silent_from"].as_u64().unwrap_or(0) as u32, case["learning"].as_bool().unwrap_or(false)),
         Some("backoff") => backoff_case(ctx, case["hours"].as_u64().unwrap_or(48) as u32),
         _ => vec![],
     };
